@@ -4,7 +4,8 @@ directly as hail.ir nodes), export the real object graph (ids = object identity)
 Program language (JSON):  ['int', z] ['bool', b] ['bin', op, P, P] ['un', op, P] ['cmp', op, P, P] ['if', P, P, P]
   ['share', py, P1, P2] (python-level `py = P1; P2`: the SAME object is used wherever ['use', py] appears)  ['use', py]
   ['bind', x, P1, P2]  ['var', x, type]  ['struct', [[f, P]..]]  ['field', f, P]  ['array', [P..]]  ['len', P]
-  ['map', x, Parr, Pbody]  ['filter', x, Parr, Pbody]  ['fold', acc, x, Parr, Pzero, Pbody]
+  ['map', x, Parr, Pbody]  ['filter', x, Parr, Pbody]  ['fold', acc, x, Parr, Pzero, Pbody]  ['idx', Parr, Pint]
+  bin ops: + - * // %   (API mode: python operators on int32 expressions; `a[i]` is Apply indexArray; IR mode: ArrayRef)
 types: 'int' | 'bool' | ['array', t] | ['struct', [[f, t]..]]
 """
 import json
@@ -41,7 +42,7 @@ def build_api(p, py, var):
         return hl.literal(bool(p[1]))
     if k == 'bin':
         a, b = build_api(p[2], py, var), build_api(p[3], py, var)
-        return {'+': lambda: a + b, '-': lambda: a - b, '*': lambda: a * b}[p[1]]()
+        return {'+': lambda: a + b, '-': lambda: a - b, '*': lambda: a * b, '//': lambda: a // b, '%': lambda: a % b}[p[1]]()
     if k == 'un':
         a = build_api(p[2], py, var)
         return -a if p[1] == '-' else ~a
@@ -68,6 +69,8 @@ def build_api(p, py, var):
         return hl.array([build_api(q, py, var) for q in p[1]])
     if k == 'len':
         return hl.len(build_api(p[1], py, var))
+    if k == 'idx':
+        return build_api(p[1], py, var)[build_api(p[2], py, var)]
     if k == 'map':
         return hl.map(lambda v: build_api(p[3], py, {**var, p[1]: v}), build_api(p[2], py, var))
     if k == 'filter':
@@ -111,6 +114,8 @@ def build_ir(p, py):
         return ir.MakeArray([build_ir(q, py) for q in p[1]], None)
     if k == 'len':
         return ir.ArrayLen(ir.CastToArray(build_ir(p[1], py)))
+    if k == 'idx':
+        return ir.ArrayRef(build_ir(p[1], py), build_ir(p[2], py))
     if k == 'map':
         return ir.ToArray(ir.StreamMap(ir.ToStream(build_ir(p[2], py)), p[1], build_ir(p[3], py)))
     if k == 'filter':
@@ -156,6 +161,10 @@ def head_of(x):
         return [c, x.name]
     if c == 'StreamFold':
         return ['StreamFold', x.accum_name, x.value_name]
+    if c == 'ArrayRef':
+        return ['Idx', False]
+    if c == 'Apply' and x.function == 'indexArray' and len(x.children) == 2 and not x.type_args:
+        return ['Idx', True]
     raise OutsideSubset(c)
 
 
